@@ -21,7 +21,8 @@ func init() {
 			" (f) every explicit panic(...) statement of the module is shown unreachable by a re-derived argument (exhaustive enum switches over the tags a token can carry given its construction sites, the constructor domain of NewValue, co-assignment of ParentObj with Str/Num, the frame balance); every index / slice expression and every payload dereference of a Value in package lang is guarded or covered by a frozen per-symbol exception; every pushed frame is one deeper than its parent so recursion through any frame kind is stopped by the limit." +
 			" Every strings.Repeat count is non-negative by constant or guard; for-in over an array iterates with Go's range." +
 			" pop / popfirst only re-slice their receiver (no nil cell is left in a backing array another reference covers)." +
-			" The line / column computation is the recognised bounds-safe scan; function values never enter containers (copy on insertion rejects them).",
+			" The line / column computation is the recognised bounds-safe scan; function values never enter containers (copy on insertion rejects them)." +
+			" Between an evaluation call and a later dereference of a payload of a cell obtained before it the tag is tested again; single bytes of the program text are read at the cursor under !atEnd() only.",
 		notDecided: "absence of every implicit Go panic (lexer cursor indexing, deep recursion), termination.",
 	})
 }
